@@ -110,7 +110,7 @@ func parseMultiLocalisedUnicode(data []byte) (MultiLocalisedUnicode, error) {
 			return result, err
 		}
 
-		if uint64(stringOffset+stringLength) > uint64(len(data)) {
+		if uint64(stringOffset)+uint64(stringLength) > uint64(len(data)) {
 			return result, fmt.Errorf("record exceeds tag data length")
 		}
 
